@@ -1,19 +1,26 @@
 """C02 - expression substitution applies the filter pipeline in the documented order; the expression scanner
 is never cut short.
 
-corr  : (a) Lean `createFilterCallable` / `visitExpression` / `defFinishExpr` (Pipeline/Model.lean) vs the call
-            nesting the real code generator emits (`Template(src, default_filters=..., buffer_filters=...).code`
-            parsed with `ast`; the `__M_writer(...)` / `return ...` expression of every site), for every
-            combination of <=4 filters x default_filters x page expression_filter x site;
-        (b) Lean `parseUntilText` / `matchExpression` vs the real `Lexer.parse_until_text` / `match_expression`
-            (result or SyntaxException position) on every string of <=k tokens over the bracket/quote/comment
-            alphabet and on generated + mutated expressions; the regex `(.+?)(\\(.*\\))` and the decode regex of
-            `create_filter_callable` against `re`; `Spec.firstTopLevel` against the generator's ground truth.
-oracle: no Lean.  Real templates are rendered with NON-COMMUTING tagging filters (user callables from the
-        context or from a module-level import) and the output is compared with the composition the property
-        text documents, computed here from the documented functions; generated expressions (brackets, dict/set
-        literals, strings with | } #, triple quotes, comments, multi-line) are lexed/rendered by the real code and
-        compared with the generator's ground truth (Expression(text, escapes) and the evaluated value).
+corr  : (a) Lean `visitExpression` / `createFilterCallable` / `defFinishExpr` / `cacheDecoratorExpr` / `callTagExpr` /
+            `blockCallSiteExpr` (Pipeline/Model.lean) vs the expressions the real code generator emits
+            (`Template(src, default_filters=..., buffer_filters=...).code` parsed with `ast`; compared as AST dumps)
+            at ten sites: expression, def filter=, block filter=, <%text filter=>, buffered def, <%call expr>,
+            cached def (buffered / not buffered: the cached function and its caching wrapper), buffered block (named /
+            anonymous: the block function and the `<call> or ''` written at the block's position);
+        (b) Lean `contextNames` vs `undeclared_identifiers()` of the real Expression / DefTag / BlockTag / TextTag nodes
+            (second role of DEFAULT_ESCAPES); `splitCall` / `resolve` vs the regex literals read from the
+            create_filter_callable under test and DEFAULT_ESCAPES;
+        (c) Lean `parseUntilText` / `matchExpression` vs the real `Lexer.parse_until_text` / `match_expression`
+            (result or SyntaxException line/column) on every string of <=k tokens over the bracket/quote/comment
+            alphabet, on an exhaustive family of backslash-newline continued literals, and on generated + mutated
+            expressions; `Spec.firstTopLevel` against the generator's ground truth.
+oracle: no Lean.  Real templates are rendered with NON-COMMUTING tagging filters (user callables from the context or
+        from a module-level import; a str subclass makes `str` visible) at the same ten sites and the output is
+        compared with the composition the property text documents, computed here from the documented functions;
+        every built-in flag is rendered with strict_undefined off and on (both must give the documented text); a
+        bytes value shows that D runs first; the implementation's scanner is compared with a Python twin of the
+        lexical specification on every enumerated string; generated expressions are lexed and rendered by the real
+        code and compared with the generator's ground truth (Expression(text, escapes) and the evaluated value).
 """
 from __future__ import annotations
 
@@ -30,26 +37,40 @@ import warnings
 from harness.common import enc, dec, Driver, shrink_str, ddmin
 
 RULE = ("pipeline: filter lists of 0-4 entries over {h,x,u,trim,entity,str,unicode,n,decode.utf8,f,g,f(1),g(\"a|b\")} "
-        "(thorough: all 30941 lists x all 20 configurations at the expression site, all lists of <=3 x all configurations "
-        "and all 4-filter lists x 2 of 4 representative configurations (alternating with the seed) at the other sites; "
-        "quick: all lists of <=2 plus a seeded sample of 3-4) x default_filters "
-        "{None,[],[str],[f],[f,g]} x page expression_filter {absent,g,n,'g,n'} x site {expression, def filter=, "
-        "block filter=, <%text filter=>, buffered def + buffer_filters {[],[g],[f,n],[trim,f]}}; smaller streams: <%call expr> under "
-        "all 20 configurations, cached defs (buffered or not) and buffered blocks (named, anonymous; rendered in place) x buffer_filters, built-in flags x strict_undefined; non-trivial = at least "
-        "two pipeline sources contribute or `n` is present; distinct = distinct (site, D, P, B, list). "
+        "x default_filters {None,[],[str],[f],[f,g]} x page expression_filter {absent,g,n,'g,n'} x buffer_filters "
+        "{[],[g],[f,n],[trim,f]} at ten sites. Correspondence - thorough: all 30941 lists x all 20 (D,P) configurations at "
+        "the expression site; all lists of <=3 x all configurations and all 4-filter lists x 2 of 4 representative "
+        "configurations (alternating with the seed) at def / block / <%text> filter=; all lists of <=3 x 4 representative "
+        "configurations x 4 buffer_filters at the buffered def; all lists of <=2 x 4 configurations x 4 buffer_filters at "
+        "cached defs (buffered or not), buffered blocks (named, anonymous) and filtered-unbuffered defs; <%call expr> under "
+        "all 20 configurations. Quick: all lists of <=2 (every third at the cached/buffered-block sites) plus a seeded "
+        "sample of 3-4-filter lists. Oracle: the same sites on smaller list sets; every list of <=2 entries plus four "
+        "decode.<enc> variants at every site x strict_undefined off/on; 200 bytes-valued cases. Non-trivial = at least two "
+        "pipeline sources contribute or `n` is present; distinct = distinct (site, D, P, B, list). "
+        "context names / regexes: filter lists vs undeclared_identifiers at 4 node kinds; every string of <=4 (thorough 5) "
+        "tokens over 16 regex-relevant tokens through splitCall/resolve. "
         "scanner: every concatenation of <=k tokens over { } ( ) [ ] | ' \" ''' \"\"\" \\ # \\n a (quick k=4 for both "
-        "terminator sets; thorough k=5 for both, k=6 for `|`,`}` and a 1/8 phase of k=6 for `}`, a 1/64 phase of k=7), "
-        "directly through parse_until_text; generated Python "
-        "expressions (nested brackets, dict/set literals, lambdas, strings with | } # and escapes, triple quotes, "
-        "f-strings without quote reuse, literals continued with backslash-newline in every quoting style with | } # and "
-        "quotes inside and after, comments and newlines inside brackets, CRLF) with 0-3 filters in varied spacing, "
-        "embedded in text, plus token mutations (delete/duplicate/swap/insert) of those; non-trivial = the expression "
-        "contains a terminator character before its real end")
+        "terminator sets; thorough k=5 for both, k=6 for `|`,`}` and a 1/8 phase of k=6 for `}`, a 1/64 phase of k=7 over "
+        "14 tokens), directly through parse_until_text; 16464 literals continued with backslash-newline / backslash-CRLF "
+        "(4 quoting styles x ''/r/b prefix x | } # quote inside and after); generated Python expressions (nested brackets, "
+        "dict/set literals, lambdas, strings with | } # and escapes, triple quotes, f-strings without quote reuse, "
+        "continued literals, comments and newlines inside brackets, CRLF) with 0-3 filters in varied spacing, embedded in "
+        "text, plus token mutations (delete/duplicate/swap/insert) of those; non-trivial = the expression contains a "
+        "terminator character before its real end")
 ASSUMPTIONS = [
     "Python call semantics of the emitted nesting f_k(...f_1(v)) (call-by-value, innermost first) is the target "
     "language's; the theorem eval_pipeline states it for an abstract term evaluator",
-    "the filter arguments handed to create_filter_callable are the strings produced by mako.ast.ArgumentList "
-    "(re-emission by ExpressionGenerator is property C19's); the correspondence feeds the model the real args",
+    "the filter arguments handed to create_filter_callable and the identifiers of a filter list are the ones produced "
+    "by mako.ast.ArgumentList (re-emission by ExpressionGenerator / FindIdentifiers is property C19's); the "
+    "correspondence feeds the model the real args / identifiers",
+    "default_filters, <%page expression_filter> and buffer_filters see module-level names only (documented: imports= / "
+    "<%! %>); filters written in the template may also come from the context - the oracle supplies user callables so",
+    "<%call expr=...> is read as an expression substitution without local filters (D and P apply); the property text is "
+    "silent about it",
+    "buffer_filters are applied to buffered defs/blocks only, as the code does (the Template docstring also names "
+    "cached and filtered defs); no oracle expectation is attached to filtered-unbuffered defs with buffer_filters",
+    "a filter entry that is neither a name nor a call (f(1).g) is outside the property's quantifier; the model "
+    "follows the code through the regenerated callRegexAnchored (fixes/F-C02-filter-tail.diff is not applied)",
     "excluded syntax (documented scanner limit): Python >=3.12 f-strings that reuse the enclosing quote inside {} "
     "(f\"{d[\"k\"]}\") - not generated, outside Spec.firstTopLevel",
     "the lexical specification allows a raw newline inside '...' and \"...\" (Python does not); this only enlarges "
@@ -57,11 +78,15 @@ ASSUMPTIONS = [
     "a top-level `|` is the filter separator by design: bitwise-or must be parenthesised; a `#` comment that has no "
     "newline before the closing brace swallows it in Python's and in the specification's reading (no terminator), "
     "such inputs are outside the theorem and only compared (model = implementation)",
+    "cached defs are rendered through a minimal in-memory CacheImpl registered by the harness (back ends are C17's)",
 ]
 TRUSTED_EXTRA = [
-    "C02: tools/regen_pipeline.py (DEFAULT_ESCAPES, Template.__init__ defaults by ast; str.isspace from the interpreter)",
+    "C02: tools/regen_pipeline.py (DEFAULT_ESCAPES, Template.__init__ defaults of default_filters/buffer_filters, the "
+    "two regex literals of create_filter_callable -> callRegexAnchored, by ast; str.isspace from the interpreter)",
     "C02: CPython's re engine: the five regexes of parse_until_text and the two of create_filter_callable are "
     "transcribed as deterministic functions and compared, not verified",
+    "C02: the Python twin of Spec.firstTopLevel in the harness (py_spec), compared with the Lean one on every "
+    "enumerated string",
 ]
 REGEN = ["Pipeline"]
 
@@ -70,7 +95,7 @@ NPROC = min(16, os.cpu_count() or 1)
 FILTERS = ["h", "x", "u", "trim", "entity", "str", "unicode", "n", "decode.utf8", "f", "g", "f(1)", 'g("a|b")']
 DEFAULTS = [None, [], ["str"], ["f"], ["f", "g"]]
 PAGES = [None, "g", "n", "g,n"]
-SITES = ["expr", "def", "block", "text", "bufdef"]      # + "call", "cachedef", "cachedefnb" (smaller streams)
+SITES = ["expr", "def", "block", "text", "bufdef"]      # + "call", CACHED_SITES, "bufblock", "anonbufblock" (smaller streams)
 BUFS = [[], ["g"], ["f", "n"], ["trim", "f"]]
 REPR_CFGS = [(None, None), (["f", "g"], "g,n"), ([], "g"), (["f"], "n")]
 TARGET = "__M_buf.getvalue()"
@@ -170,6 +195,30 @@ def canon_text(src):
         return "unparsable: %r (%s)" % (src, e)
 
 
+def block_call_texts(site, P, lists):
+    """the call `visitBlockTag` writes at the position of each block of the template (anonymous blocks are named
+    after their template line)"""
+    if site == "bufblock":
+        return ["context['self'].b%d(**pageargs)" % k for k in range(len(lists))]
+    src = build_template(site, P, lists, call=False)
+    return ["__M_anon_%d()" % (1 + src.count("\n", 0, m.start())) for m in re.finditer("<%block ", src)]
+
+
+def block_site_exprs(render_body, n):
+    """per case the canonical AST of the `<call> or ''` written at the block's position"""
+    v = _Ordered()
+    v.visit(render_body)
+    res, cur = [None] * n, None
+    for kind, val in v.events:
+        if kind == "marker":
+            cur = None if val == "end" else int(val)
+        elif kind == "write" and cur is not None and isinstance(val, ast.BoolOp):
+            if res[cur] is not None:
+                raise AssertionError("two block call sites for case %d" % cur)
+            res[cur] = canon(val)
+    return res
+
+
 def real_exprs(site, D, P, B, lists):
     """for every case the canonical AST of the expression the generated module writes / returns
     (None: the site emits no filter expression at all)"""
@@ -212,7 +261,8 @@ def real_exprs(site, D, P, B, lists):
             if len(hits) != 1:
                 raise AssertionError("%d filter expressions in %s" % (len(hits), fn.name))
             res[k] = canon(hits[0])
-        return res
+        sites = block_site_exprs(funcs["render_body"], len(lists))
+        return [[a, b] for a, b in zip(res, sites)]
     if site in ("expr", "text", "call"):
         v = _Ordered()
         v.visit(funcs["render_body"])
@@ -241,6 +291,9 @@ def real_exprs(site, D, P, B, lists):
                     if res[k] is not None:
                         raise AssertionError("two filter expressions in %s" % fn.name)
                     res[k] = canon(val)
+        if site == "bufblock":
+            sites = block_site_exprs(funcs["render_body"], len(lists))
+            return [[a, b] for a, b in zip(res, sites)]
     return res
 
 
@@ -267,7 +320,8 @@ def squeeze(line):
 def model_requests(site, D, P, B, lists):
     """per case the list of requests whose answers make up the case's expression(s)"""
     reqs = []
-    for fs in lists:
+    calls = block_call_texts(site, P, lists) if site in ("bufblock", "anonbufblock") else None
+    for k, fs in enumerate(lists):
         text = ", ".join(fs) if site == "expr" else attr_text(fs)
         args = real_args(text)
         cfg = cfg_fields(D if D is None else [a for a in D], P)
@@ -284,6 +338,8 @@ def model_requests(site, D, P, B, lists):
         else:
             reqs.append([squeeze("pipe deffin %d 0 %s %s %s %s" % (1 if site in BUFFERED_SITES else 0, enc(TARGET), cfg,
                                                                 lst_fields(args), lst_fields(list(B))))])
+            if calls is not None:
+                reqs[-1].append("pipe blocksite " + enc(calls[k]))
     return reqs
 
 
@@ -709,9 +765,15 @@ def _scan_check(strings, bars, tag):
                 if len(r["dis"]) < 5:
                     r["dis"].append({"case": {"kind": "scan", "input": s, "terms": terms}, "model": o, "impl": want})
             kind = "err" if want == "err" else "ok"
-            if sp != "none":
+            pq = py_spec(terms, s)
+            if sp != ("none" if pq is None else str(pq)):
+                # the Lean specification and its Python twin (used by the Lean-free oracle below) must agree
+                r["ndis"] += 1
+                if len(r["dis"]) < 5:
+                    r["dis"].append({"case": {"kind": "spec-twin", "input": s, "terms": terms}, "model": sp, "impl": pq})
+            if pq is not None:
                 # the specification finds a first top-level terminator: the implementation must return exactly there
-                q = int(sp)
+                q = pq
                 kind += "+well-lexed"
                 if want != "ok %s %s %d" % (enc(s[:q]), enc(s[q]), q + 1):
                     r["viol"].append(("scanner-vs-lexical-spec", {"kind": "scan", "input": s, "terms": terms},
